@@ -24,6 +24,7 @@ const (
 	errorInvalidBulkStringLength = "invalid bulk string length (%d != %d)"
 	errorInvalidBulkStringDelim  = "invalid bulk string ending delimiter %s"
 	errorShortArray              = "array is short (%d < %d)"
+	errorTooLargeBulkString      = "too large bulk string length (%d)"
 )
 
 // ErrEOM is the error returned by Array::Next() when no more message is available.
